@@ -207,3 +207,31 @@ Theorem C19_type_mappings_table :
      ("datetime", "TimestampType"); ("time", "TimestampType")]%string /\
   infer_decimal = (38, 18) /\ decimal_default = (10, 0).
 Proof. exact type_mappings_table. Qed.
+
+(* sanity: the doctest inputs of _make_type_verifier *)
+Example verifier_doctests :
+  verify (TStruct []) true PNone = Ok tt /\
+  verify (TAtom AString) true (PStr []) = Ok tt /\
+  verify (TAtom ALong) true (PInt 0) = Ok tt /\
+  verify (TArray (TAtom AShort) true) true (PList [PInt 0; PInt 1; PInt 2]) = Ok tt /\
+  verify (TMap (TAtom AString) (TAtom AInteger) true) true (PDict []) = Ok tt /\
+  verify (TStruct []) true (PTuple []) = Ok tt /\
+  verify (TStruct []) true (PList []) = Ok tt /\
+  verify (TStruct []) true (PList [PInt 1]) = Err EValue /\
+  verify (TAtom AByte) true (PInt 12) = Ok tt /\
+  verify (TAtom AByte) true (PInt 1234) = Err EValue /\
+  verify (TAtom AByte) false PNone = Err EValue /\
+  verify (TArray (TAtom AShort) false) true (PList [PInt 1; PNone]) = Err EValue /\
+  verify (TMap (TAtom AString) (TAtom AInteger) true) true (PDict [(PNone, PInt 1)]) = Err EValue /\
+  verify (TStruct [SField (lit "a") (TAtom AInteger) true []; SField (lit "b") (TAtom AString) false []]) true
+         (PTuple [PInt 1; PNone]) = Err EValue.
+Proof. vm_compute. repeat split. Qed.
+
+(* sanity: the doctest inputs of Row.asDict *)
+Example asdict_doctests :
+  as_dict (PRow [lit "age"; lit "name"] [PInt 11; PStr (lit "Alice")])
+    = Ok (PDict [(PStr (lit "age"), PInt 11); (PStr (lit "name"), PStr (lit "Alice"))]) /\
+  as_dict_conv (PRow [lit "key"; lit "value"] [PInt 1; PRow [lit "age"; lit "name"] [PInt 2; PStr (lit "a")]])
+    = PDict [(PStr (lit "key"), PInt 1);
+             (PStr (lit "value"), PDict [(PStr (lit "age"), PInt 2); (PStr (lit "name"), PStr (lit "a"))])].
+Proof. vm_compute. split; reflexivity. Qed.
